@@ -70,6 +70,7 @@ def generate(solver_tree, util, trees=None):
     out.append(rad)
     if 'trust_region' in trees:
         out.append(gen_kernels(trees, util))
+        out.append(gen_coord_init(trees, util))
     out.append('End Gen.')
     out.append(idx)
     return '\n'.join(out)
@@ -185,4 +186,94 @@ def gen_kernels(trees, util):
         t = expr_tr(util, {'col': 'vec', 'lower': 'vec', 'upper': 'vec'})
         txt, _ = t.e(e2, want='vec')
         out.append('Definition py_util_%s_tail (l_col l_lower l_upper : vec) : vec :=\n%s.\n' % (gname, t.finish(txt)))
+    return '\n'.join(out) + '\n'
+
+
+# ------------------------------------------------------------------------------------------------ coordinate initialisation (C14)
+class _InitNorm(ast.NodeTransformer):
+    """self.delta -> delta ; self.model.sl[dirn] / self.model.sl -> sl ; same for su ; at_*_boundary[dirn] -> at_*"""
+
+    def visit_Subscript(self, n):
+        t = ast.unparse(n)
+        m = {'self.model.sl[dirn]': 'sl', 'self.model.su[dirn]': 'su', 'at_lower_boundary[dirn]': 'at_lower', 'at_upper_boundary[dirn]': 'at_upper'}
+        if t in m:
+            return ast.copy_location(ast.Name(id=m[t], ctx=ast.Load()), n)
+        fail(n, 'unexpected subscript in the coordinate initialisation: %s' % t)
+
+    def visit_Attribute(self, n):
+        t = ast.unparse(n)
+        m = {'self.delta': 'delta', 'self.model.sl': 'sl', 'self.model.su': 'su'}
+        if t in m:
+            return ast.copy_location(ast.Name(id=m[t], ctx=ast.Load()), n)
+        fail(n, 'unexpected attribute in the coordinate initialisation: %s' % t)
+
+
+def gen_coord_init(trees, util):
+    """the decision logic of Controller.initialise_coordinate_directions for one coordinate (bounds case): the two
+    boundary tests, the first step and the second step, as scalar Gallina functions; fail closed on the statement texts
+    around them (the step is written into xpts_added[k, dirn] and evaluated through as_absolute_coordinates)"""
+    ct = trees['controller']
+    cls = [n for n in ct.body if isinstance(n, ast.ClassDef) and n.name == 'Controller']
+    fn = [k for k in (cls[0].body if cls else []) if isinstance(k, ast.FunctionDef) and k.name == 'initialise_coordinate_directions']
+    if len(fn) != 1:
+        raise Untranslatable('UNTRANSLATABLE: Controller.initialise_coordinate_directions not found exactly once')
+    fn = fn[0]
+    def assigns(name, root):
+        return [a for a in ast.walk(root) if isinstance(a, ast.Assign) and len(a.targets) == 1 and ast.unparse(a.targets[0]) == name]
+    out = []
+    for nm, var in (('at_lower_boundary', 'sl'), ('at_upper_boundary', 'su')):
+        a = assigns(nm, fn)
+        if len(a) != 1:
+            fail(fn, '%s must be assigned exactly once' % nm)
+        e2 = _InitNorm().visit(ast.parse(ast.unparse(a[0].value), mode='eval').body)
+        t = expr_tr(util, {var: 'T', 'delta': 'T'})
+        txt, _ = t.e(e2, want='B')
+        out.append('Definition py_init_%s (l_%s l_delta : T) : bool :=\n%s.\n' % (nm, var, t.finish(txt)))
+    # the sequential branch: for k in range(1, num_directions + 1): if 1 <= k < self.n() + 1: ... elif self.n() + 1 <= k < 2 * self.n() + 1: ...
+    loops = [l for l in ast.walk(fn) if isinstance(l, ast.For) and ast.unparse(l.iter) == 'range(1, num_directions + 1)']
+    seq = [l for l in loops if l.body and isinstance(l.body[0], ast.If) and ast.unparse(l.body[0].test) == '1 <= k < self.n() + 1']
+    if len(seq) != 1:
+        fail(fn, 'sequential coordinate loop not found exactly once')
+    first = seq[0].body[0]
+    if not (len(first.orelse) == 1 and isinstance(first.orelse[0], ast.If) and ast.unparse(first.orelse[0].test) == 'self.n() + 1 <= k < 2 * self.n() + 1'):
+        fail(first, 'second-step branch not found')
+    second = first.orelse[0]
+    btxt = [ast.unparse(x) for x in first.body]
+    if btxt[0] != 'dirn = k - 1' or btxt[-1] != 'xpts_added[k, dirn] = stepa' or len(assigns('stepa', ast.Module(body=first.body, type_ignores=[]))) != 1:
+        fail(first, 'first-step branch is not dirn = k - 1; stepa = ...; xpts_added[k, dirn] = stepa (got %r)' % btxt)
+    sa = assigns('stepa', ast.Module(body=first.body, type_ignores=[]))[0]
+    e2 = _InitNorm().visit(ast.parse(ast.unparse(sa.value), mode='eval').body)
+    t = expr_tr(util, {'at_upper': 'B', 'delta': 'T'})
+    txt, _ = t.e(e2, want='T')
+    out.append('Definition py_init_stepa (l_at_upper : bool) (l_delta : T) : T :=\n%s.\n' % t.finish(txt))
+    # every other stepa in the function that feeds a first step (the run_in_parallel loop) must be the same expression
+    for a in assigns('stepa', fn):
+        if a is not sa and ast.unparse(a.value) not in (ast.unparse(sa.value), 'xpts_added[k - self.n(), dirn]', 'None'):
+            fail(a, 'a first step computed differently: %s' % ast.unparse(a.value))
+    # second step: stepb = <e0>; if at_lower_boundary[dirn]: stepb = <e1>; if at_upper_boundary[dirn]: stepb = <e2>; xpts_added[k, dirn] = stepb
+    stx = [x for x in second.body if not (isinstance(x, ast.Expr) and isinstance(x.value, ast.Constant))]
+    txts = [ast.unparse(x) for x in stx]
+    if not (txts[0] == 'dirn = k - self.n() - 1' and txts[1] == 'stepa = xpts_added[k - self.n(), dirn]' and txts[-1] == 'xpts_added[k, dirn] = stepb' and len(stx) == 6
+            and isinstance(stx[2], ast.Assign) and ast.unparse(stx[2].targets[0]) == 'stepb'
+            and isinstance(stx[3], ast.If) and ast.unparse(stx[3].test) == 'at_lower_boundary[dirn]' and not stx[3].orelse and len([y for y in stx[3].body if isinstance(y, ast.Assign)]) == 1
+            and isinstance(stx[4], ast.If) and ast.unparse(stx[4].test) == 'at_upper_boundary[dirn]' and not stx[4].orelse and len([y for y in stx[4].body if isinstance(y, ast.Assign)]) == 1):
+        fail(second, 'second-step branch has an unexpected shape: %r' % txts)
+    def only_assign(ifn):
+        ys = [y for y in ifn.body if not (isinstance(y, ast.Expr) and isinstance(y.value, ast.Constant))]
+        if len(ys) != 1 or ast.unparse(ys[0].targets[0]) != 'stepb':
+            fail(ifn, 'branch does more than assign stepb')
+        return ys[0].value
+    es = [stx[2].value, only_assign(stx[3]), only_assign(stx[4])]
+    parts = []
+    for e in es:
+        e2 = _InitNorm().visit(ast.parse(ast.unparse(e), mode='eval').body)
+        t = expr_tr(util, {'delta': 'T', 'sl': 'T', 'su': 'T'})
+        txt, _ = t.e(e2, want='T')
+        parts.append(t.finish(txt))
+    out.append('Definition py_init_stepb (l_at_lower l_at_upper : bool) (l_delta l_sl l_su : T) : T :=\n'
+               '  let s0 := %s in\n  let s1 := if l_at_lower then %s else s0 in\n  if l_at_upper then %s else s1.\n' % tuple(parts))
+    # the point evaluated is the clipped one
+    evals = [ast.unparse(a.value) for a in assigns('x', seq[0])]
+    if evals != ['self.model.as_absolute_coordinates(xpts_added[k, :])']:
+        fail(seq[0], 'the coordinate loop does not evaluate as_absolute_coordinates(xpts_added[k, :]) (got %r)' % evals)
     return '\n'.join(out) + '\n'
